@@ -24,7 +24,7 @@ def graph_case(rnd, max_nodes=5, max_t=6, max_edges=12, selfloops=0.1, long_time
         k = rnd.randint(17, 40)
         hist = [o for o in hist if {o[2], o[3]} != {1, 2}][:4] + [('add', 0, 1, 2, 5 * i, 5 * i + rnd.choice([2, 3])) for i in range(k)]
     # snapshot ids of different widths / signs (the DAG encodes them in strings)
-    sh = rnd.choice([0, 0, 0, 7, 8, -3, -2, 96, 2 ** 31 - 2, 1700000000000])
+    sh = rnd.choice([0, 0, 0, 0, 7, 8, -3, -2, 96, 2 ** 31 - 2, 1700000000000, 2 ** 63 - 2, 10 ** 30])
     hist = [(o[0], o[1], o[2], o[3], o[4] + sh, None if o[5] is None else o[5] + sh) for o in hist]
     hist.sort(key=lambda o: o[4])
     if not hist:
